@@ -6,6 +6,13 @@ from .. import strcorpus, runner
 
 def generate(tier, rng):
     enums = strcorpus.build_enums(rng, tier, 'C18', with_default='none', with_err='some', passes=1 if tier == 'quick' else 3)
+    enums += strcorpus.build_soup(rng, tier, 'C18', with_default=True, n=20 if tier == 'quick' else 200)
+    for e in enums[-(20 if tier == 'quick' else 200):]:
+        e.err = (int(e.id[4:]) % 3 != 0)
+    for e in enums:
+        for v in e.variants:
+            if v.default:
+                v.dis = True   # C18's domain has no (effective) default variant; a disabled one must be ignored entirely
     info = strcorpus.query_model(enums)
     c = Corpus()
     for e in enums:
